@@ -195,8 +195,14 @@ func newBuilt(c *mon.Ctx, r *gen.Rand) *built {
 	b := &built{c: c, r: r, x: scte35.CreateSCTE35(), kinds: map[string]bool{}}
 	b.m = ref.Sig{TableID: 0xfc, Tier: 0xfff, Cmd: 0}
 	b.log("CreateSCTE35()")
-	if b.x.Tier() != 0xfff || b.x.Command() != scte35.SpliceNull || b.x.HasPTS() || len(b.x.Descriptors()) != 0 {
-		b.fail("create:defaults", "CreateSCTE35() is not a splice_null with tier 0xFFF and no descriptors", nil, nil)
+	// the starting point is stated through the API rather than assumed (defaults are the library's choice)
+	b.x.SetCommandInfo(scte35.CreateSpliceNull())
+	b.x.SetTier(0xfff)
+	b.x.SetDescriptors(nil)
+	b.x.SetAdjustPTS(0)
+	b.log("SetCommandInfo(CreateSpliceNull()); SetTier(0xfff); SetDescriptors(nil); SetAdjustPTS(0)")
+	if b.x.Tier() != 0xfff || b.x.Command() != scte35.SpliceNull || len(b.x.Descriptors()) != 0 {
+		b.fail("create:starting-point", "after SetCommandInfo(splice_null), SetTier(0xFFF), SetDescriptors(nil) the getters report something else", nil, nil)
 	}
 	return b
 }
@@ -241,14 +247,17 @@ func (b *built) setCommand(kind int) {
 		b.ts = scte35.CreateTimeSignalCommand()
 		b.log("SetCommandInfo(CreateTimeSignalCommand())")
 		b.x.SetCommandInfo(b.ts)
-		b.m.Cmd, b.m.TSHas, b.m.TSPTS = 6, false, 0
+		// the field values of a freshly created command are whatever its getters report (defaults are the
+		// library's choice, not the statement's)
+		b.m.Cmd, b.m.TSHas, b.m.TSPTS = 6, b.ts.HasPTS(), uint64(b.ts.PTS())&m33
 	default:
 		b.ins = scte35.CreateSpliceInsertCommand()
 		b.log("SetCommandInfo(CreateSpliceInsertCommand())")
 		b.x.SetCommandInfo(b.ins)
 		m := &b.m
 		m.Cmd = 5
-		m.Event, m.Cancel, m.Out, m.Prog, m.HasDur, m.Imm, m.InsHas, m.InsPTS, m.AutoRet, m.Dur, m.UPID16, m.Avail, m.Avails = 0, false, false, true, false, false, false, 0, false, 0, 0, 0, 0
+		in := b.ins
+		m.Event, m.Cancel, m.Out, m.Prog, m.HasDur, m.Imm, m.InsHas, m.InsPTS, m.AutoRet, m.Dur, m.UPID16, m.Avail, m.Avails = in.EventID(), in.IsEventCanceled(), in.IsOut(), in.IsProgramSplice(), in.HasDuration(), in.SpliceImmediate(), in.HasPTS(), uint64(in.PTS())&m33, in.IsAutoReturn(), uint64(in.Duration())&m33, in.UniqueProgramId(), in.AvailNum(), in.AvailsExpected()
 		m.Comps = nil
 	}
 	_ = r
@@ -462,8 +471,20 @@ func (b *built) setDescriptors(n int) {
 	b.m.Descs = nil
 	b.compH, b.midH = map[int][]scte35.ComponentOffset{}, map[int][]scte35.UPID{}
 	for i := 0; i < n; i++ {
-		b.descs = append(b.descs, scte35.CreateSegmentationDescriptor())
-		b.m.Descs = append(b.m.Descs, ref.SegDesc{})
+		d := scte35.CreateSegmentationDescriptor()
+		b.descs = append(b.descs, d)
+		// the field values of a freshly created descriptor are whatever its getters report
+		w := ref.SegDesc{Event: d.EventID(), Cancel: d.IsEventCanceled(), ProgSeg: d.HasProgramSegmentation(), HasDur: d.HasDuration(), Dur: uint64(d.Duration()) & (1<<40 - 1),
+			NotRestricted: d.IsDeliveryNotRestricted(), Web: d.IsWebDeliveryAllowed(), NoBlackout: d.HasNoRegionalBlackout(), Archive: d.IsArchiveAllowed(), DevRestr: byte(d.DeviceRestrictions()) & 3,
+			UPIDType: byte(d.UPIDType()), UPID: append([]byte{}, d.UPID()...), Type: byte(d.TypeID()), Num: d.SegmentNumber(), Exp: d.SegmentsExpected(),
+			HasSub: d.HasSubSegments(), SubNum: d.SubSegmentNumber(), SubExp: d.SubSegmentsExpected()}
+		for _, co := range d.Components() {
+			w.Comps = append(w.Comps, ref.SegComp{Tag: co.ComponentTag(), Off: uint64(co.PTSOffset()) & m33})
+		}
+		for _, u := range d.MID() {
+			w.MID = append(w.MID, ref.UPID{Type: byte(u.UPIDType()), Data: append([]byte{}, u.UPID()...)})
+		}
+		b.m.Descs = append(b.m.Descs, w)
 	}
 	b.log("SetDescriptors(%d fresh descriptors)", n)
 	b.x.SetDescriptors(b.descs)
@@ -744,7 +765,11 @@ func (b *built) descOp() {
 	default:
 		var cs []scte35.ComponentOffset
 		var ms []ref.SegComp
-		for k := r.Intn(4); k > 0; k-- {
+		nc := r.Intn(4)
+		if r.Chance(6) {
+			nc = 8 + r.Intn(14) // long component lists: the descriptor outgrows any small fixed buffer
+		}
+		for k := nc; k > 0; k-- {
 			co := scte35.CreateComponentOffset()
 			t, off := r.Byte(), b.val(33)
 			co.SetComponentTag(t)
